@@ -50,6 +50,8 @@ def write_evidence(pid, tier, seed, units, results, known_hit, violations, undec
     for (u, e) in violations:
         samples.append({"failed_obligation": e["obligation"]})
     obligations += extra.get("obligations", 0); discharged += extra.get("discharged", 0)
+    lean = extra.get("lean", [])
+    obligations += len(lean); discharged += sum(1 for l in lean if l["status"] == "proved")
     cov = {"obligations": obligations, "discharged": discharged,
            "checker_cmd": "; ".join(sorted(set(p.get("checker_cmd", "") for p in per_unit.values()))) or "verus <unit>.rs",
            "trusted_base": sorted(trusted) + ["Verus 0.2026.09.13 + bundled Z3", "rustc front end", "vstd specifications", "extractor/weaver in /verif/vf (self-check: strip(generated)==extracted source tokens)"],
@@ -59,7 +61,12 @@ def write_evidence(pid, tier, seed, units, results, known_hit, violations, undec
            "known_findings_reported": [k["id"] for k, e in known_hit],
            "undecided": [{"unit": u, "msg": e["msg"], "fn": e["owner"]} for u, e in undecided],
            "tooling_errors": [{"unit": u, "msg": str(m)[:300]} for u, m in tool]}
-    if extra: cov["thorough"] = extra.get("report", {})
+    if extra.get("report"): cov["thorough"] = extra.get("report", {})
+    if lean:
+        cov["lean_obligations"] = [{"name": l["name"], "function": l["function"], "status": l["status"], "seconds": l["seconds"], "back_end": "Lean 4 + Mathlib (ring / field_simp)",
+                                    "statement_sha256": l.get("statement_sha256")} for l in lean]
+        cov["trusted_base"].append("Lean 4.33 kernel + Mathlib; vf/leangen.py translator (straight-line field code -> let-chain); the step from the generated ring identities to the Verus contract of the formula functions is NOT machine-checked")
+    if extra.get("carve_runs"): cov["known_finding_rederivation"] = extra["carve_runs"]
     ev = {"property_id": pid, "tier": tier, "seed": seed, "level": "proof", "coverage": cov,
           "assumptions": sorted(set(assumptions)), "wall_s": round(wall, 2), "violations": len(violations)}
     os.makedirs(os.path.join(VERIF, "evidence"), exist_ok=True)
